@@ -620,7 +620,13 @@ func (r *stateResolverV2) calculateFullAuthChainAndConflictedSubgraph(
 			conflictedSubgraphEventIDs := append(slices.Clone(curr.visiting), curr.pdu.EventID())
 			fmt.Printf("found conflicted subgraph %v\n", conflictedSubgraphEventIDs)
 			for _, eventID := range conflictedSubgraphEventIDs {
-				conflictedSubgraph.Insert(r.authEventMap[eventID])
+				// The path consists of conflicted state events (its two ends) and auth events.
+				// A conflicted event need not be among the supplied auth events.
+				if ev := r.authEventMap[eventID]; ev != nil {
+					conflictedSubgraph.Insert(ev)
+				} else if ev := r.conflictedEventMap[eventID]; ev != nil {
+					conflictedSubgraph.Insert(ev)
+				}
 			}
 		}
 
